@@ -17,7 +17,8 @@ LEVEL = ("For generated sets of two-level molecules (read directly after build()
          "all occupation tuples, every Hamiltonian and dipole element with the element predicted from the two "
          "signatures, the same system supplied in other energy units / built under another units context with the "
          "same internal matrix, a relabelled copy through basis-free invariants (sorted spectrum, one- and two-photon "
-         "moments <0|D H^k D|0>, <0|DD H^k DD|0>), and couplings from positions and dipoles with the SI formula.")
+         "moments <0|D H^k D|0>, <0|DD H^k DD|0>), and couplings from positions and dipoles with the SI formula."
+         " Later additions: the electronic Hamiltonian accessor, rebuild() in a units context, the general coupling entry point calculate_resonance_coupling, Hamiltonian diagonalised and brought back in units as a use before reading.")
 NOTE = ("Two-level molecules only (three-level molecules are outside 'Frenkel exciton'); order of states inside a "
         "band is read from elsigs, not claimed; N <= 5 quick / 6 thorough (<= 22 states); units with a multiplicative conversion only "
         "(nm cannot express a zero ground-state energy).")
